@@ -222,7 +222,7 @@ def gen_std(rnd):
         N = rnd.choice([2, 3, 5, 20, 60]); return dict(runner='std', kind='ba', N=N, M=rnd.randint(1, N - 1), seed=rnd.randrange(1 << 30))
     if kind == 'fixed':
         return dict(runner='std', kind='fixed', n=rnd.randint(0, 6), seed=rnd.randrange(1 << 30), limit=rnd.choice([None, 0, 1, 3]), asks=rnd.randint(0, 5))
-    return dict(runner='std', kind='api', ctor=rnd.choice([None, None, 'same', 'equal']), limit=rnd.choice([None, 0, 1, 2, 4]), asks=rnd.randint(0, 6), how=[rnd.choice(['generate', 'next', 'iter', 'fresh', 'loop']) for _ in range(6)],
+    return dict(runner='std', kind='api', ctor=rnd.choice([None, None, 'same', 'equal']), limit=rnd.choice([None, 0, 1, 2, 4]), asks=rnd.randint(0, 6), how=[rnd.choice(['generate', 'next', 'iter', 'fresh', 'loop', 'setgen']) for _ in range(6)],
                 seed=rnd.randrange(1 << 30))
 
 
@@ -295,6 +295,7 @@ def run_std(spec):
                     g = None
                     for g_ in gen:
                         g = g_; break
+                elif h == 'setgen': g = gen.set({'n': 3, 'stale': 1}).generate()
                 else: g = gen.generate() if h == 'generate' else next(gen) if h == 'next' else next(iter(gen)) if h == 'fresh' else next(it)
             except StopIteration: g = None
             if g is not None: made.append(g)
